@@ -220,6 +220,23 @@ class GModel:
         common = self.ancestry(a) & self.ancestry(b)
         return {c for c in common if not any(o != c and c in self.ancestry(o) for o in common)}
 
+    def lcas_of(self, revs):
+        revs = list(revs)
+        common = None
+        for r in revs:
+            common = set(self.ancestry(r)) if common is None else common & self.ancestry(r)
+        common = common or set()
+        return {c for c in common if not any(o != c and c in self.ancestry(o) for o in common)}
+
+    def iterated_unique_lca(self, a, b):
+        """The documented reduction 'LCAs, then the LCAs of those, ... until one is left':
+        a revision, or None when the reduction ends at the graph origin (the remaining
+        LCAs share no ancestor)."""
+        cur = self.lcas(a, b)
+        while len(cur) > 1:
+            cur = self.lcas_of(cur)
+        return next(iter(cur)) if cur else None
+
     def merger(self, r, tip):
         """The revision of tip's left-hand history that brought r into it: the oldest
         left-hand revision whose ancestry contains r (r itself when it is on the
